@@ -1284,31 +1284,85 @@ def toy_force_fields(rng):
     return ffs, atoms
 
 
+def backmap_library(ffs):
+    return [[name, [[bn, [[str(k), b.nodes[k]['atomname']] for k in b.nodes]] for bn, b in ff.blocks.items()
+                    if all('atomname' in b.nodes[k] for k in b.nodes)]]
+            for name, ff in ffs.items()]
+
+
+def backmap_impl(lines, ffs):
+    """canonical string of what read_backmapping_file loaded: one row per (from_ff, to_ff, name) in
+    dictionary order with the (from index, to index, weight) entries and the extra atoms"""
+    try:
+        out = map_input.read_backmapping_file(lines, ffs)
+    except Exception:
+        return None, 'error'
+    rows = []
+    for f, d in out.items():
+        for t, d2 in d.items():
+            for name, m in d2.items():
+                es = []
+                for i, dd in m.mapping.items():
+                    for j, w in dd.items():
+                        fr = Fraction(w).limit_denominator(10 ** 6)
+                        es.append(enc([str(i), str(j), fr.numerator, fr.denominator]))
+                rows.append('[ %s %s %s %s %s ]' % (enc(f), enc(t), enc(name),
+                                                    '[ ' + ' '.join(sorted(es)) + ' ]' if es else '[ ]',
+                                                    enc(list(m.block_to.extra))))
+    return out, 'ok ' + ('[ ' + ' '.join(rows) + ' ]' if rows else '[ ]')
+
+
 def run_maps():
     rng = chk.rng('maps')
     ffs, atoms = toy_force_fields(rng)
+    lib = backmap_library(ffs)
+    cases = []
     for i in range(3000 if chk.thorough else 300):
         # ---- backward style .map ----
         lines, decl = [], collections.OrderedDict()
         fault = rng.random() < 0.2
-        for res in rng.sample(['ALA', 'GLY', 'LYS'], rng.randint(1, 3)):
-            lines += ['[ molecule ]', res, '[ from ]', 'aa', '[ to ]', 'cg', '[ atoms ]']
+        simple = rng.random() < 0.6        # simple files have an independent expectation
+        for res in rng.sample(['ALA', 'GLY', 'LYS'] + ([] if simple else ['UNK']), rng.randint(1, 3)):
+            lines += [rng.choice(['[ molecule ]', '[molecule]', '[ molecule ] ; c']), res]
+            if simple:
+                lines += ['[ from ]', 'aa', '[ to ]', 'cg']
+            else:
+                k = rng.random()
+                if k < 0.5:
+                    lines += [rng.choice(['[ from ]', '[ mapping ]']), rng.choice(['aa', 'aa other', 'aa cg'])]
+                if rng.random() < 0.6:
+                    lines += ['[ to ]', rng.choice(['cg', 'cg aa', 'nope'])]
+                if rng.random() < 0.3:
+                    lines += ['[ martini ]', 'BB SC1', '[ extra ]', 'X1 X2']
+            lines.append('[ atoms ]')
             m = collections.OrderedDict()
-            for k, a in enumerate(rng.sample(atoms['aa'], rng.randint(1, 6))):
+            pool = atoms['aa'] if simple else atoms['aa'] + ['QQ']
+            for k, a in enumerate(rng.sample(pool, rng.randint(1, 6))):
                 tos = [('!' if rng.random() < 0.2 else '') + rng.choice(atoms['cg']) for _ in range(rng.randint(0, 4))]
                 m[a] = tos
-                lines.append('%d %s %s' % (k + 1, a, ' '.join(tos)))
+                lines.append('%d %s %s%s' % (k + 1, a, ' '.join(tos), rng.choice(['', ' ; c'])))
+            if not simple and rng.random() < 0.2:
+                lines += ['[ chiral ]', 'CB CA N C']
             decl[res] = m
         conflict = any(('!' + t) in tos for m in decl.values() for tos in m.values() for t in tos)
         if fault:
-            lines.insert(rng.randint(0, len(lines)), rng.choice(['[ molecule', '[ molecule ]']))
+            k = rng.random()
+            if k < 0.5:
+                lines.insert(rng.randint(0, len(lines)), rng.choice(['[ molecule', '[ molecule ]']))
+            elif k < 0.7:
+                j = [q for q, t in enumerate(lines) if t == '[ atoms ]']
+                lines.insert(rng.choice(j) + 1, '1 N ZZ')         # target atom that the block does not have
+            elif k < 0.85:
+                j = [q for q, t in enumerate(lines) if t == '[ atoms ]']
+                lines.insert(rng.choice(j) + 1, '7')              # atom line without a source atom
+            else:
+                lines = [t for t in lines if 'molecule' not in t]
+        cases.append((lines, decl, fault, simple, conflict))
+    plines = [line('backmap', lib, ls) for ls, *_ in cases]
+    for i, ((lines, decl, fault, simple, conflict), ln, mo) in enumerate(zip(cases, plines, ask(plines))):
         errs = []
-        try:
-            out = map_input.read_backmapping_file(lines, ffs)
-            im = 'ok'
-        except Exception as e:
-            out, im = None, 'error'
-        if not fault:
+        out, im = backmap_impl(lines, ffs)
+        if not fault and simple:
             if conflict:
                 if out is not None:
                     errs.append('.map with a target both with and without "!" was loaded')
@@ -1333,8 +1387,10 @@ def run_maps():
                     have = {(f, t): Fraction(w).limit_denominator(10 ** 6) for f, d in mp.items() for t, w in d.items()}
                     if have != want:
                         errs.append('.map weights of %s: loaded %r, declared %r' % (res, have, want))
-        chk.count('map_' + im + ('_fault' if fault else ''))
-        chk.case('map-%d' % i, enc(lines), im, None, errs, len(decl) >= 2 or fault)
+        elif fault and simple and out is not None and any(t == '1 N ZZ' for t in lines):
+            errs.append('.map naming a target atom the block does not have was loaded')
+        chk.count('map_' + im.split()[0] + ('_fault' if fault else '') + ('' if simple else '_rich'))
+        chk.case('map-%d' % i, ln, im, mo, errs, len(decl) >= 2 or fault)
     # ---- new style .mapping files through read_mapping_file (oracle only) ----
     for i in range(2000 if chk.thorough else 250):
         lines, decl = [], collections.OrderedDict()
@@ -1462,21 +1518,30 @@ def run_shipped():
     # mappings: every [ molecule ] of a .map file and every [ block ]/[ modification ] of a .mapping yields one entry
     import vermouth.forcefield as vff
     known = vff.find_force_fields(os.path.join(data, 'force_fields'))
-    for path in sorted(glob.glob(os.path.join(data, 'mappings', '**', '*.map'), recursive=True)):
+    mfiles = sorted(glob.glob(os.path.join(data, 'mappings', '**', '*.map'), recursive=True))
+    mlines, mmeta = [], []
+    for path in mfiles:
         ls = open(path).read().split('\n')
+        words = {t.split(';')[0].strip() for t in ls}
+        # only the blocks a molecule of this file can name are sent to the model
+        lib = [[name, [[bn, [[str(k), b.nodes[k]['atomname']] for k in b.nodes]] for bn, b in ff.blocks.items()
+                       if bn in words and all('atomname' in b.nodes[k] for k in b.nodes)]]
+               for name, ff in known.items()]
+        mlines.append(line('backmap', lib, ls))
+        mmeta.append((path, ls))
+    for (path, ls), mo in zip(mmeta, ask(mlines)):
         errs = []
-        try:
-            out = map_input.read_backmapping_file(ls, known)
-        except Exception as e:
-            out = None
-            errs.append('shipped mapping %s rejected: %r' % (path, e))
+        out, im = backmap_impl(ls, known)
+        if out is None:
+            errs.append('shipped mapping %s rejected' % path)
         nmol = sum(1 for t in ls if t.split(';')[0].strip().replace(' ', '') == '[molecule]')
         if out is not None:
             names = {n for a in out.values() for b in a.values() for n in b}
             if nmol and len(names) > nmol:
                 errs.append('%s: %d molecules declared, %d names loaded' % (path, nmol, len(names)))
         chk.count('shipped_map')
-        chk.case('shipped-' + os.path.relpath(path, data), 'map-file ' + os.path.relpath(path, data), 'ok', None, errs, True)
+        rel = os.path.relpath(path, data)
+        chk.case('shipped-' + rel, 'map-file ' + rel, im, mo, errs, True)
     for path in sorted(glob.glob(os.path.join(data, 'mappings', '**', '*.mapping'), recursive=True)):
         ls = open(path).read().split('\n')
         errs = []
